@@ -105,7 +105,7 @@ def add_source(rng, cfg, src, name):
     return '%s@%s' % (src, 'route' if where == nlev else 'level%d' % where)
 
 
-sh_exotic = [0]
+sh_exotic = [0, 0]
 
 
 def plant(rng, host, what):
@@ -123,11 +123,24 @@ def plant(rng, host, what):
             if rng.chance(0.3):
                 # perfectly good parameter names that tooling sometimes treats specially: soft keywords, builtins' names,
                 # underscore-only and dunder-like names, mixed case, digits
-                name = rng.pick(['type', 'match', 'case', '_', '__', 'id', 'list', 'print', 'Name', 'x1', '_private', '__dunder__', 'self_'])
-                sh_exotic[0] += 1
+                exotic = [n for n in ['type', 'match', 'case', '_', '__', 'id', 'list', 'print', 'Name', 'x1', '_private', '__dunder__', 'self_']
+                          if n not in offered_names(cfg) and n not in used_names(cfg)]
+                if exotic:
+                    name = rng.pick(exotic)
+                    sh_exotic[0] += 1
         la = add_source(rng, cfg, a, name)
         lb = add_source(rng, cfg, b, name)
         label = '%s [%s: %s + %s]' % (what, name, la, lb)
+        if a.startswith('mw-') and b.startswith('mw-') and rng.chance(0.4):
+            # the two offering middlewares are of related types (one derives from the other): related is not the same,
+            # both stay on the route and their offers collide like any others
+            offering = [m for m in [m for l in cfg['levels'] for m in l['mws']] + cfg['route']['mws']
+                        if any(name in m[x] for x in ('provides', 'endpoint_provides', 'render_provides'))]
+            if len(offering) == 2 and offering[0]['type'] != offering[1]['type'] and not offering[0].get('base') and not offering[1].get('base'):
+                sub, base = (offering[1], offering[0]) if rng.chance(0.7) else (offering[0], offering[1])
+                sub['base'], sub['base_unique'] = base['type'], base.get('unique', True)
+                label += ' [related types]'
+                sh_exotic[1] += 1
     elif what == 'reserved-app-resource':
         name = rng.pick(list(di.RESERVED))
         cfg['levels'][rng.randrange(len(cfg['levels']))]['resources'].append(name)
@@ -150,7 +163,7 @@ def plant(rng, host, what):
             for a in ('provides', 'endpoint_provides', 'render_provides'):
                 m[a] = [x for x in m[a] if x != 'zz']
         f = mw[phase]
-        variant = rng.pick(['dropped', 'second', 'renamed', 'no-params', 'near-miss', 'near-miss'])
+        variant = rng.pick(['dropped', 'second', 'renamed', 'no-params', 'near-miss', 'near-miss', 'kwonly-next'])
         rest = [p for p in f['params'] if p[0] != 'next']
         if variant == 'no-params':
             f['params'] = []           # a function that takes nothing at all
@@ -160,6 +173,11 @@ def plant(rng, host, what):
             f['params'] = [rest[0], ['next', rest[0][1] if rest[0][1] in ('def',) else 'req']] + rest[1:]
             if rest[0][1] in ('def', 'kwdef', 'kwreq'):
                 f['params'] = [[rest[0][0], 'req'], ['next', 'req']] + rest[1:]
+        elif variant == 'kwonly-next':
+            # next is there, but keyword-only behind something else: still not the first parameter
+            first = rest[0] if rest else ['request', 'req']
+            f['params'] = [[first[0], 'req' if first[1] not in ('def',) else 'def']] + [p for p in rest[1:] if p[1] in ('req', 'def')] + \
+                          [['next', 'kwreq']] + [p for p in rest[1:] if p[1] not in ('req', 'def')]
         elif variant == 'near-miss':
             # a first parameter whose name merely resembles 'next' and that can be supplied (it has a default): only the
             # first-parameter rule stands between this function and a chain that never receives a next
@@ -207,11 +225,46 @@ def plan(tier, seed):
 def run_shard(sh, spec):
     rng = Rng(spec['seed'], PROPERTY, spec['label'])
     from .. import gen_di as g
-    sh_exotic[0] = 0
+    sh_exotic[0] = sh_exotic[1] = 0
     try:
         _run_shard(sh, spec, rng, g)
+        bound_then_unbound(sh, rng)
     finally:
         sh.hit('conflict-on-an-unusual-name', sh_exotic[0])
+        sh.hit('conflict-between-related-middleware-types', sh_exotic[1])
+
+
+def bound_then_unbound(sh, rng):
+    """The 'forgot to bind it' mistake, after the same function was seen in its proper form: a hook function that is fine
+    as a bound method (self, next, ...) is then used as a plain function - its first parameter is now 'self', not next."""
+    from clastic import Application, Route, Response, Middleware
+    for phase in ('request', 'endpoint', 'render'):
+        for order in ('bound-first', 'plain-first', 'plain-only'):
+            ns = {}
+            exec('def hook(self, next):\n    return next()\n', ns)
+            T = type('Tagger_%s_%s' % (phase, order), (Middleware,), {phase: ns['hook']})
+
+            def build(mw):
+                return Application([Route('/', lambda: Response('ok'), (lambda context: Response('r')))], middlewares=[mw])
+            plain = Middleware.__new__(type('Plain_%s_%s' % (phase, order), (Middleware,), {}))
+            setattr(plain, phase, ns['hook'])          # the plain function: nothing binds it, its first parameter is 'self'
+            steps = {'bound-first': ['bound', 'plain'], 'plain-first': ['plain', 'bound'], 'plain-only': ['plain']}[order]
+            for step in steps:
+                case = {'scenario': 'bound-then-unbound', 'phase': phase, 'order': order, 'step': step}
+                try:
+                    app = build(T() if step == 'bound' else plain)
+                    err = None
+                except Exception as e:
+                    err = e
+                sh.case(case, nontrivial=True, klass='hook-bound-and-plain')
+                if step == 'bound' and err is not None:
+                    sh.violation('C04/rejected-valid-control', 'a %s hook given as a bound method (self, next) was refused: %r' % (phase, err), case)
+                elif step == 'plain' and err is None:
+                    sh.violation('C04/accepted:mw-without-next', 'a %s hook whose first parameter is self (a method used without binding it, %s) '
+                                 'was accepted' % (phase, order), case)
+                else:
+                    sh.hit('planted:mw-without-next')
+                    sh.hit('hook-bound-and-plain:' + step)
 
 
 def _run_shard(sh, spec, rng, g):
@@ -241,4 +294,6 @@ def _run_shard(sh, spec, rng, g):
 
 
 def replay(sh, case, spec):
+    if case.get('scenario') == 'bound-then-unbound':
+        return bound_then_unbound(sh, Rng(0, 'replay'))
     replay_cfg(sh, PROPERTY, case)
